@@ -9,6 +9,7 @@ import (
 type commitable[T any] struct {
 	comittedValue T
 	stagedValue   typeutils.Optional[T]
+	previousValue typeutils.Optional[T] // the value replaced by the last Commit, until it is confirmed or rolled back
 }
 
 func NewCommitable[T any](value T) commitable[T] {
@@ -29,12 +30,32 @@ func (c *commitable[T]) Stage(value T) {
 
 func (c *commitable[T]) Commit() {
 	if val, ok := c.stagedValue.Get(); ok {
+		c.previousValue = typeutils.Some(c.comittedValue)
 		c.comittedValue = val
 		c.stagedValue = typeutils.None[T]()
 	}
 }
 
 func (c *commitable[T]) Uncommit() {
+	c.stagedValue = typeutils.None[T]()
+}
+
+// Returns the value that was replaced by the last Commit, if that commit has not been confirmed yet.
+func (c *commitable[T]) Previous() (T, bool) {
+	return c.previousValue.Get()
+}
+
+// Makes the last Commit final.
+func (c *commitable[T]) Confirm() {
+	c.previousValue = typeutils.None[T]()
+}
+
+// Drops anything staged and undoes the last Commit if it has not been confirmed yet.
+func (c *commitable[T]) Rollback() {
+	if prev, ok := c.previousValue.Get(); ok {
+		c.comittedValue = prev
+		c.previousValue = typeutils.None[T]()
+	}
 	c.stagedValue = typeutils.None[T]()
 }
 
